@@ -36,7 +36,7 @@ RULE = ("every expression AST up to a node-count bound over atoms {a, b, [ab], [
         "where to stop); each is produced exactly once by the enumeration")
 BOUNDS = {
     "quick": "AST size <= 4 (4175 expressions) x 364 strings (len <= 5 over {a,b,c}) x {regex, regex_bytes}, whole input; "
-             "string/string_bytes wrappers for size <= 2; multi-byte family size <= 3 (170 expressions, 6 of them unsupported shapes) x 121 strings (len <= 4 over 3 symbols); "
+             "string/string_bytes wrappers for size <= 2; multi-byte family size <= 3 (170 expressions, 6 of them unsupported shapes) x 121 strings (len <= 4 over 3 symbols), each also as a machine over bytes under a Latin-1 encoder (one byte per symbol) built after the UTF-8 one; "
              "3-byte family size <= 3 (170 expressions, 6 unsupported) x 341 strings (len <= 4 over 4 symbols); "
              "chunked feeding for size <= 2 only",
     "thorough": "AST size <= 5 (44605 expressions) x 364 strings x {regex, regex_bytes} whole input; every 2-way chunking "
@@ -322,6 +322,10 @@ def build(kind, expr):
             return cpppo.regex(initial=expr, context="r", terminal=True), None
         if kind == "regex_bytes":
             return cpppo.regex_bytes(initial=expr, context="r", terminal=True), None
+        if kind == "regex_latin1":
+            # the documented generic form: a machine over bytes under the caller's own symbol encoder (here one byte per symbol)
+            return cpppo.regex(initial=expr, context="r", terminal=True, regex_alphabet=int, regex_typecode="B",
+                               regex_encoder=lambda sym: (b for b in bytearray(sym.encode("latin-1")))), None
         if kind == "string":
             return cpppo.string("s", initial=expr, context="r", greedy=True, terminal=True), None
         if kind == "string_bytes":
@@ -356,7 +360,7 @@ def run_machine(machine, kind, chunks):
             exc = "exception:%s: %s" % (type(e).__name__, str(e)[:120])
         terminal = bool(machine.terminal)
     sent = source.sent
-    stored = data.get("r.input") if kind in ("regex", "regex_bytes") else None
+    stored = data.get("r.input") if kind in ("regex", "regex_bytes", "regex_latin1") else None
     if stored is not None:
         stored = stored.tounicode() if stored.typecode == "u" else stored.tobytes()
     value = data.get("r") if kind in ("string", "string_bytes") else None
@@ -381,7 +385,7 @@ def judge(kind, whole, obs, n, accepting, midsymbol):
     if k != n:
         bad.append(("absorbs-beyond-prefix" if k > n else "stops-short-of-prefix",
                     "consumed %d symbols %r, reference prefix is %d symbols %r%s" % (k, whole[:k], n, p, where)))
-    if kind in ("regex", "regex_bytes"):
+    if kind in ("regex", "regex_bytes", "regex_latin1"):
         got = obs["stored"]
         if got is None:
             got = whole[:0]
@@ -615,6 +619,9 @@ def outcome_class(n, accepting, whole, midsymbol):
 
 def expectation(ref, family, kind, s):
     byteswise = kind in ("regex_bytes", "string_bytes")
+    if kind == "regex_latin1":             # one byte per symbol: the symbol-wise reference applies to the encoded bytes as they are
+        (n, accepting) = ref.expect_symbols(s)
+        return s.encode("latin-1"), n, accepting, False
     whole = s.encode("utf-8") if byteswise else s
     if byteswise and family != "ascii":
         n, accepting, mid = ref.expect_bytes(s)
@@ -759,6 +766,10 @@ def shard(acc, item, tier, seed):
         else:
             kinds = ["regex_bytes"]
             chunk_kinds = ("regex_bytes",) if pl["mb_chunks"] else ()
+            if family == "mb":
+                # every symbol of this family is one byte in Latin-1: the same expression text, in the same process, as a machine
+                # over bytes under another encoder (built after the UTF-8 one)
+                kinds = ["regex_bytes", "regex_latin1"]
         try:
             check_expr(acc, family, ast, size, strings, kinds, chunk_kinds, seed)
         except OracleDisagreement as exc:
@@ -841,6 +852,8 @@ def replay(case):
     ref = Ref(ast, universe)
     expr = show(ast)
     diag = Diagnosis(ref, expr, strings, family)
+    if kind == "regex_latin1":
+        build("regex_bytes", expr)        # as in the exploration: the UTF-8 machine of the same expression text exists first
     machine, why = build(kind, expr)
     if machine is None:
         if family == "ascii" or not (mentions(ast, literal) and mentions(ast, "a")):
